@@ -265,7 +265,7 @@ where
             Ordering::Equal => Ok(()),
             Ordering::Greater => {
                 ensure!(
-                    lamports > 0,
+                    lamports == 0,
                     ProgramError::InsufficientFunds,
                     "Tried to refund rent from {} but does not have enough lamports to cover rent",
                     account.pubkey()
